@@ -46,7 +46,10 @@ def serialization(seed=0):
         d = s.deserialize(x)
         r = d["resolution"]
         pins = {"face": d["origin"].id, "segment": d["segment"], "S": d["S"]}
+        from symx import shared
+        snap = shared.snapshot_state()
         res = sx.explore(h, {"r": r}, pins=pins)
+        shared.restore_state(snap)
         if len(res.observations) != 1:
             bad.append(("paths", hex(x), len(res.observations), res.inconclusive[:1]))
             continue
@@ -92,9 +95,13 @@ def compaction(seed=0):
         for k, x in enumerate(cells):
             d = s.deserialize(x)
             pins.update({"x%d.face" % k: d["origin"].id, "x%d.segment" % k: d["segment"], "x%d.S" % k: d["S"]})
+        from symx import shared
+        snap = shared.snapshot_state()
         res = sx.explore(h, {"rs": rs, "mode": mode, "t": t}, pins=pins, max_paths=2000)
+        shared.restore_state(snap)
         n += 1
         exp = a5.compact(cells) if mode == "compact" else a5.uncompact(cells, t)
+        shared.restore_state(snap)
         got = [o["out"] for o in res.observations]
         if got != [exp]:
             bad.append((case["name"], got[:2], exp[:4]))
